@@ -341,8 +341,6 @@ func TestUint32Sweep(t *testing.T) {
 				// value and its sign extension (int32 -> int64 negative varints)
 				for _, x := range [2]uint64{v, uint64(int64(int32(uint32(v))))} {
 					b := protowire.AppendVarint(buf[:0], x)
-					r := ref.Varint(buf[8:8], 0)
-					_ = r
 					n := ref.VarintLen(x)
 					dv, m := protowire.ConsumeVarint(b)
 					if len(b) != n || protowire.SizeVarint(x) != n || dv != x || m != n ||
